@@ -13,7 +13,7 @@ import subprocess
 import sys
 import time
 
-from . import engine
+from . import engine, rules_extra
 from .engine import Acc, VERIF, jdump
 
 
@@ -153,7 +153,7 @@ def main(argv=None):
             'samples': json.loads(jdump(acc.samples[:4])) or ['<none>'],
             'evaluations': acc.evaluations,
             'distinct_nontrivial': len(acc.nontrivial),
-            'rule': info.get('rule', ''),
+            'rule': (info.get('rule', '') + ' ' + rules_extra.EXTRA.get(pid, '')).strip(),
             'exhaustive': not acc.caps,
             'bounds': info.get('bounds', {}),
             'caps_hit': acc.caps,
